@@ -51,6 +51,15 @@ func mayReturn(c *ast.CallExpr) bool {
 }
 
 func buildProg(name string, body *ast.BlockStmt, cl classifier, init [2]int, strict bool) *prog {
+	return buildProgE(name, body, cl, nil, init, strict)
+}
+
+// edgeClassifier returns events that happen ON the k-th outgoing edge of a block (k = 0: the
+// condition ending the block is true, k = 1: false). Such an edge is split by a synthetic block
+// carrying the events, so the Lean CFG model needs no notion of edge events.
+type edgeClassifier func(b *cfg.Block, k int) []ev
+
+func buildProgE(name string, body *ast.BlockStmt, cl classifier, ecl edgeClassifier, init [2]int, strict bool) *prog {
 	g := cfg.New(body, mayReturn)
 	idx := map[*cfg.Block]int{}
 	var live []*cfg.Block
@@ -83,6 +92,16 @@ func buildProg(name string, body *ast.BlockStmt, cl classifier, init [2]int, str
 			pb.succs = append(pb.succs, idx[s])
 		}
 		p.blocks[i] = pb
+	}
+	if ecl != nil {
+		for i, b := range live {
+			for k := range b.Succs {
+				if evs := ecl(b, k); len(evs) > 0 {
+					p.blocks = append(p.blocks, progBlock{evs: evs, succs: []int{p.blocks[i].succs[k]}, pos: p.blocks[i].pos})
+					p.blocks[i].succs[k] = len(p.blocks) - 1
+				}
+			}
+		}
 	}
 	p.computeCert()
 	return p
